@@ -9,10 +9,4 @@ INVARIANT UndefinedIffDegenerate
 INVARIANT LatticeOctant
 INVARIANT ReversalKeeps
 INVARIANT MirrorNegates
-INVARIANT OracleReversal
-INVARIANT OracleMirror
-INVARIANT OracleRotation
-INVARIANT OracleTranslation
-INVARIANT OracleNeverOrigin
-INVARIANT OracleAxisGap
 CHECK_DEADLOCK FALSE
